@@ -11,6 +11,7 @@ import (
 
 	"github.com/dgraph-io/badger/v4/pb"
 	"github.com/dgraph-io/badger/v4/trie"
+	"github.com/dgraph-io/badger/v4/vhook"
 	"github.com/dgraph-io/badger/v4/y"
 	"github.com/dgraph-io/ristretto/v2/z"
 )
@@ -63,6 +64,7 @@ func (p *publisher) listenForUpdates(c *z.Closer) {
 		case <-c.HasBeenClosed():
 			return
 		case reqs := <-p.pubCh:
+			vhook.Point("publisher.recv")
 			slurp(reqs)
 		}
 	}
